@@ -281,8 +281,9 @@ func c02Families(thorough bool) []*engine.IFamily {
 
 func init() {
 	engine.Register(&engine.Check{
-		ID:       "C02",
-		Families: func(c *engine.Ctx) []*engine.IFamily { return c02Families(c.Thorough) },
+		ID:        "C02",
+		Families:  func(c *engine.Ctx) []*engine.IFamily { return c02Families(c.Thorough) },
+		Scenarios: func(c *engine.Ctx) []*engine.SScenario { return updateLinScenarios(false, c.Thorough) },
 		Run: func(c *engine.Ctx) *engine.Report {
 			rep := &engine.Report{Level: "model_checking", Coverage: map[string]any{}}
 			specs := listSpecs()
@@ -305,6 +306,8 @@ func init() {
 			rep.Coverage["states"] = int(cs)
 			rep.Coverage["transitions"] = int(ev)
 			rep.Coverage["traces_validated_against_impl"] = int(ev)
+			// updates applied from several goroutines: the stored data is the fold of the updates in some order
+			mergeS(c, rep, updateLinScenarios(false, c.Thorough), engine.SPlan{Bounds: boundsFor(c, []int{0, 1, 2}, []int{0, 1, 2, 3, -1})})
 			rep.Assumptions = []string{"don't-care zones (not judged): update lists repeating an identifier or giving part of a multi-key identifier, selectors matching several items, elements naming a key field; types whose identifier is neither numeric nor a string get only the filter-less and identifier-less shapes; string identifiers are compared without order"}
 			_ = strings.Join
 			return rep
